@@ -133,6 +133,21 @@ pub fn convert_room(s: &Snap, src: Tok) -> u128 {
     crate::mon::div_rate(value, r_src).min(E18)
 }
 
+/// Largest amount of `denom` whose value stays at or below `cap` in both reward coins at the oracle price.
+pub fn value_cap(cfg: &Cfg, denom: &str, cap: u128) -> u128 {
+    let p = cfg.price.atomics().u128(); // kusd per usei
+    let v = match denom {
+        USEI => cap.min(crate::mon::div_rate(cap, p.max(1))),
+        KUSD => cap.min(crate::mon::mul_rate(cap, p)),
+        _ => {
+            // uatom: 7.5 kusd each
+            let k = cap.min(crate::mon::mul_rate(cap, p));
+            crate::mon::div_rate(k, 7_500_000_000_000_000_000u128)
+        }
+    };
+    v.max(1)
+}
+
 pub fn clock_move(r: &mut Rng, s: &Snap) -> u64 {
     let epoch = s.params.epoch_period;
     let unb = s.params.unbonding_period;
@@ -333,15 +348,9 @@ pub fn next_op(r: &mut Rng, s: &Snap, cfg: &Cfg, p: &Profile, g: &mut GenState) 
                 _ => USEI,
             };
             let room = cap.saturating_sub(s.total_delegated + s.pending_rewards.get(USEI).cloned().unwrap_or(0) + 1_000_000);
-            // keep the value of one accrual at or below 1e15 of the bSei reward coin (envelope 4.1: no single
-            // amount above 1e18 after the swap at the oracle price, cumulative index below 1e20)
-            let price_at = match denom {
-                USEI => cfg.price.atomics().u128(),
-                UATOM => 7_500_000_000_000_000_000u128,
-                _ => E18,
-            };
-            let by_value = crate::mon::div_rate(E18 / 1000, price_at.max(E18)).max(1);
-            let max = (E18 / 1000).min(room.max(1)).min(by_value);
+            // keep the value of one accrual at or below 1e15 in BOTH reward coins (envelope 4.1: no single amount
+            // above 1e18 after a swap at the oracle price in either direction, cumulative index below 1e20)
+            let max = (E18 / 1000).min(room.max(1)).min(value_cap(cfg, denom, E18 / 1000));
             Op::Accrue { validator: v, denom: denom.into(), amount: amount_upto(r, p, max) }
         }
         14 => {
@@ -351,7 +360,8 @@ pub fn next_op(r: &mut Rng, s: &Snap, cfg: &Cfg, p: &Profile, g: &mut GenState) 
                 3 => (DISPATCHER, KUSD),
                 _ => (REWARD, KUSD),
             };
-            Op::Donate { to: to.into(), denom: denom.into(), amount: amount_upto(r, p, E18 / 1_000_000) }
+            let max = if to == HUB { E18 / 1_000_000 } else { value_cap(cfg, denom, E18 / 1_000_000) };
+            Op::Donate { to: to.into(), denom: denom.into(), amount: amount_upto(r, p, max) }
         }
         15 => {
             let reg: Vec<String> = s.registry.iter().map(|x| x.0.clone()).collect();
